@@ -321,7 +321,7 @@ def run(tier):
         for (a, b) in ((0, 3), (96, 103), (196, 203), (296, 303), (396, 399)):
             for (ml, mh) in ((-1, 2), (3, 6), (7, 10), (11, 14)):
                 jobs.append(("e2e:yi%d-%d,m%d-%d" % (a, b, ml, mh), job_e2e, {"entry": "n_sec", "yi_lo": a, "yi_hi": b, "mlo": ml, "mhi": mh, "dlo": -40, "dhi": 75}))
-    results = common.run_jobs(jobs)
+    results = common.run_jobs(jobs, job_timeout=(None if tier == "quick" else 7000))
     rep.add_jobs(results)
     # replay failed obligations natively
     for r in results:
